@@ -4,7 +4,6 @@ CONSTANTS
   Readers = {1, 2, 3}
   MaxWrites = 1000000
   MaxCkpt = 1000000
-  MaxReaderStarts = 1000000
   ReaderPoints = {"idle", "check", "compact", "sqlite", "classify", "finish"}
   CanonicalPages = FALSE
   DisarmOnTruncate = TRUE
